@@ -398,6 +398,10 @@ func definitelyDistinct(a, b *Term) bool {
 			}
 		}
 	}
+	// a freshly allocated object (id A0+k, k>=1) differs from every reference that existed at entry
+	if (isFreshRef(a) && isOldRef(b)) || (isFreshRef(b) && isOldRef(a)) {
+		return true
+	}
 	// distinct allocation ids: A0 + k1 vs A0 + k2
 	if a.Op == "+" && b.Op == "+" && len(a.Args) == 2 && len(b.Args) == 2 && a.Args[0] == b.Args[0] {
 		return definitelyDistinct(a.Args[1], b.Args[1])
@@ -669,7 +673,7 @@ func Select(a, i *Term) *Term {
 		in := And(BVUle(at, i), BVUlt(i, BVAdd(at, cnt)))
 		return Ite(in, App("str_at", BV(8), str, BVSub(i, at)), Select(dst, i))
 	}
-	if a.Op == "store" && a.Sort.Idx.Kind == KBV {
+	if a.Op == "store" && (a.Sort.Idx.Kind == KBV || a.Sort.Elem.Kind == KArray) {
 		// eliminate stores on element arrays eagerly (read-over-write)
 		return Ite(Eq(a.Args[1], i), a.Args[2], Select(a.Args[0], i))
 	}
@@ -683,7 +687,7 @@ func Select(a, i *Term) *Term {
 		var res *Term
 		if l == r {
 			res = l
-		} else if (l.Op != "select" || l.Args[0] != a.Args[1]) && (r.Op != "select" || r.Args[0] != a.Args[2]) {
+		} else if (l.Op != "select" || l.Args[0] != a.Args[1]) || (r.Op != "select" || r.Args[0] != a.Args[2]) {
 			res = Ite(a.Args[0], l, r)
 		} else {
 			res = App("select", a.Sort.Elem, a, i)
@@ -949,4 +953,57 @@ func PrintQuery(asserts []*Term) string {
 		fmt.Fprintf(&sb, "(assert %s)\n", b.String())
 	}
 	return sb.String()
+}
+
+func isFreshID(id *Term) bool {
+	if id.Op == "+" && len(id.Args) == 2 && id.Args[0].Op == "var" && id.Args[0].Name == "A0" {
+		if k, ok := id.Args[1].IntVal(); ok && k >= 1 {
+			return true
+		}
+	}
+	return false
+}
+
+func isFreshRef(t *Term) bool {
+	return t.Op == "mkref" && isFreshID(t.Args[0])
+}
+
+// isOldRef: syntactically a reference that existed at function entry:
+// parameters, components of parameters, values read from entry-state memory,
+// global-region objects; or a field/element address inside such an object.
+func isOldRef(t *Term) bool {
+	switch t.Op {
+	case "var":
+		return strings.HasPrefix(t.Name, "p$") || strings.HasPrefix(t.Name, "fv$")
+	case "sbase", "iref", "fenv":
+		return isOldVal(t.Args[0])
+	case "select":
+		return isOldVal(t)
+	case "mkref":
+		id := t.Args[0]
+		if id.Op == "rid" {
+			return isOldRef(id.Args[0])
+		}
+		if v, ok := id.IntVal(); ok && v > 0 {
+			return true // global region
+		}
+	}
+	return false
+}
+
+func isOldVal(t *Term) bool {
+	for {
+		switch t.Op {
+		case "var":
+			return strings.HasPrefix(t.Name, "p$") || strings.HasPrefix(t.Name, "fv$") || strings.HasSuffix(t.Name, "@pre") || strings.HasSuffix(t.Name, "@g")
+		case "select":
+			t = t.Args[0]
+			continue
+		}
+		if strings.HasPrefix(t.Op, "f$") && len(t.Args) == 1 { // struct field accessor
+			t = t.Args[0]
+			continue
+		}
+		return false
+	}
 }
